@@ -552,6 +552,123 @@ def r19_9(chk, P):
     return n
 
 
+
+def r19_11(chk, P):
+    chk.rule('R19.11', 'a lapped seek accepts every position its plain counterpart accepts: the lapped-seek workers refuse a doomed request '
+             'before they consume the lapping data, by comparing the position with a bound the caller passes in.  For every call of '
+             'such a worker, the bound argument B and the plain seek S handed in are taken; the comparisons between the position '
+             'and B that control the worker\'s call of S, and the comparisons between S\'s own position parameter and the same '
+             'quantity B that control S\'s success return (followed into the seek S delegates to), must agree on whether the '
+             'position B itself is accepted.  `pos>end` and `!(pos<end)` differ for exactly one value -- the end of the stream, '
+             'where a player parks the handle')
+    EQ = {'<': False, '>': False, '<=': True, '>=': True, '==': True, '!=': False}
+
+    def canon(F, e, defs, depth=0):
+        e = F.strip_casts(e)
+        nd = F.ex[e]
+        k = nd['k']
+        if k == 'ref':
+            d = nd['decl']
+            if d.get('kind') == 'param':
+                return 'P%d' % [i for i, p_ in enumerate(F.params) if p_['id'] == d['id']][0]
+            if d.get('kind') == 'var' and d['id'] in defs and depth < 3:
+                return canon(F, defs[d['id']], defs, depth + 1)
+            return d.get('name', '?')
+        if k == 'int':
+            return str(nd['v'])
+        if k == 'member':
+            return canon(F, nd['c'][0], defs, depth) + '.' + nd['field']
+        if k == 'call':
+            return (nd['callee'].get('d') or '?') + '(' + ','.join(canon(F, a, defs, depth) for a in nd.get('c', [])) + ')'
+        if k in ('bin', 'un'):
+            return nd.get('op', '') + '(' + ','.join(canon(F, c, defs, depth) for c in nd.get('c', []) if c) + ')'
+        return F.s(e)
+
+    def accepts_at_bound(F, site, pos_pid, bound_canon, defs):
+        """-> list of booleans, one per controlling comparison of `site` between the position parameter and the bound"""
+        out = []
+        for c, pol in common.atomic_conditions(F, site):
+            nd = F.ex[F.strip_casts(c)]
+            if nd['k'] != 'bin' or nd['op'] not in EQ:
+                continue
+            a, b = canon(F, nd['c'][0], defs), canon(F, nd['c'][1], defs)
+            pn = 'P%d' % pos_pid
+            if {a, b} == {pn, bound_canon}:
+                out.append(EQ[nd['op']] == pol)
+        return out
+
+    def plain_accepts(S, pos_idx, bound_canon, depth=0):
+        defs = common.single_defs(S)
+        res = []
+        for e in S.nodes('ret'):
+            nd = S.ex[e]
+            if nd.get('c') and common.const_val(S, nd['c'][0]) == 0:
+                res += accepts_at_bound(S, e, pos_idx, bound_canon, defs)
+        if res or depth >= 2:
+            return res
+        # delegation: S hands its position on to another seek
+        for c in S.calls():
+            d = S.ex[c]['callee'].get('d')
+            G = P.get(d, S) if d else None
+            if G is None or not G.file.endswith('vorbisfile.c'):
+                continue
+            for j, a in enumerate(S.ex[c].get('c', [])):
+                if canon(S, a, defs) == 'P%d' % pos_idx and j < len(G.params):
+                    # the bound is expressed over the handle parameter, which is passed on in the same slot
+                    res += plain_accepts(G, j, bound_canon, depth + 1)
+        return res
+    n = 0
+    for H in P.functions():
+        if not H.file.endswith('vorbisfile.c') or H.entry is None:
+            continue
+        fparams = [i for i, p_ in enumerate(H.params) if '(*)' in p_['t']]
+        if len(fparams) != 1 or len(H.params) < 4:
+            continue
+        fi = fparams[0]
+        calls_fp = [c for c in H.calls() if H.ex[c]['callee'].get('param') == H.params[fi]['id']]
+        if not calls_fp:
+            continue
+        hdefs = common.single_defs(H)
+        # which parameter travels to the seek as its position, and which is compared with it
+        site = calls_fp[0]
+        args = H.ex[site].get('c', [])
+        if len(args) < 2:
+            continue
+        pos_c = canon(H, args[1], hdefs)
+        if not pos_c.startswith('P'):
+            continue
+        pos_idx = int(pos_c[1:])
+        for G in P.functions():
+            for c in G.calls(H.name):
+                if P.key(H) not in P.call_targets(G, c):
+                    continue
+                cargs = G.ex[c].get('c', [])
+                Sn = G.ex[G.strip_casts(cargs[fi])] if fi < len(cargs) else None
+                S = P.get(Sn['decl']['name'], G) if Sn is not None and Sn['k'] == 'ref' else None
+                if S is None:
+                    continue
+                gdefs = common.single_defs(G)
+                for bi, p_ in enumerate(H.params):
+                    if bi in (0, pos_idx, fi) or bi >= len(cargs):
+                        continue
+                    mine = accepts_at_bound(H, site, pos_idx, 'P%d' % bi, hdefs)
+                    if not mine:
+                        continue
+                    bound = canon(G, cargs[bi], gdefs)
+                    theirs = plain_accepts(S, 1, bound)
+                    n += 1
+                    if not theirs:
+                        chk.assumed('R19.11', G.name, f'bound-agrees-with:{S.name}', G.where(c),
+                                    f'{S.name} has no comparison of its position with `{G.s(cargs[bi])}` on its success path (it finds the '
+                                    'range by a search); the early test is then only required not to precede... nothing to compare')
+                        continue
+                    ok = all(m == t for m in mine for t in theirs)
+                    chk.ob('R19.11', G.name, f'bound-agrees-with:{S.name}', ok, G.where(c),
+                           f'position == `{G.s(cargs[bi])}`: {H.name} accepts it: {mine}, {S.name} accepts it: {theirs}' +
+                           ('' if ok else f' -- the lapped seek refuses (or admits) the one position where they differ: a seek to exactly '
+                            'the end of the stream succeeds plainly and fails lapped'))
+    return n
+
 def run(chk, P):
     r19_7(chk, P)
     chk.floor('R19.7', 2)
@@ -559,6 +676,8 @@ def run(chk, P):
     chk.floor('R19.8', 3)
     r19_9(chk, P)
     chk.floor('R19.9', 8)
+    r19_11(chk, P)
+    chk.floor('R19.11', 3)
     from rules import c07
     import k3
     E = getattr(P, '_effects', None) or k3.Effects(P)
